@@ -206,6 +206,25 @@ def replay_pyvc(rec):
     return first
 
 
+def fuzz_pyvc(rec):
+    """Run-time contract check on sampled inputs (bounded stand-in for a lost proof): the first
+    input on which the real code violates the contract is reported."""
+    tried = ok = 0
+    for m in rec.get('fuzz_models', []):
+        try:
+            st, detail, obs = _replay_one(rec, m)
+        except Exception as e:  # noqa: BLE001 - an input the builder cannot realise
+            continue
+        tried += 1
+        if st == 'confirmed':
+            obs['model_used'] = {k: v for k, v in m.items()}
+            return 'confirmed', f'(sampled input {tried}) ' + detail, obs
+        if st == 'spurious' and 'violates requires' not in detail:
+            ok += 1
+    return 'spurious', f'contract held on {ok} sampled inputs satisfying the precondition ' \
+                       f'({tried} tried)', {'tried': tried, 'satisfied': ok}
+
+
 def _replay_one(rec, fullmodel):
     model = {k: v for k, v in fullmodel.items() if not k.startswith('_')}
     case = fullmodel.get('_case', {})
@@ -333,6 +352,8 @@ def main(path):
         if rec.get('kind') == 'rtc':
             from vf.rtc.run import replay_case
             status, detail, observed = replay_case(rec)
+        elif rec.get('fuzz_models') is not None and rec.get('replay'):
+            status, detail, observed = fuzz_pyvc(rec)
         elif rec.get('replay'):
             status, detail, observed = replay_pyvc(rec)
         else:
